@@ -216,6 +216,25 @@ def mask_application(ctx, rule, qual, branch_body, multi, strict_char_map=True):
     # the per-character map.  Two spellings of "position i of the mask and of the tail":
     #   counter form    k = 0 ... for c in mask: <if> ... k += 1            (k: any name)
     #   enumerate form  for k, c in enumerate(mask): <if>
+    if strict_char_map:
+        # whatever the loop looks like: the tail upper-cased as a whole and then addressed by position
+        whole = {k_ for k_, v in assigns.items() if isinstance(v, ast.Call) and isinstance(v.func, ast.Attribute) and v.func.attr == 'upper'
+                 and not v.args and (U(v.func.value) == 'end_word' or (ew is not None and U(v.func.value) == U(ew)))}
+        for n in (x for st in branch_body for x in walk_local(st)):
+            hit = None
+            if isinstance(n, ast.Subscript) and not isinstance(n.slice, ast.Slice):
+                if (isinstance(n.value, ast.Name) and n.value.id in whole) or U(n.value) == 'end_word.upper()':
+                    hit = n
+            if isinstance(n, ast.Call) and call_name(n) in ('zip', 'enumerate', 'iter') and \
+                    any((isinstance(a, ast.Name) and a.id in whole) or U(a) == 'end_word.upper()' for a in n.args):
+                hit = n
+            if hit is not None:
+                ctx.bad(rule, qual, 'whole tail upper-cased, then addressed by position: %s' % U(hit)[:60],
+                        "each mask character must map the character at the same index of the tail: 'L' keeps it, anything else "
+                        "upper-cases *that character*; str.upper() of the whole tail is not position-preserving (sharp s -> SS), so "
+                        "every 'U' behind such a letter picks the wrong character and the spelling the scorer prices is never emitted",
+                        facts, hit)
+                return False
     maps = []
     for n in (x for st in branch_body for x in walk_local(st)):
         if isinstance(n, ast.For):
